@@ -222,6 +222,9 @@ func (s *levelHandler) close() error {
 		if closeErr := t.Close(-1); closeErr != nil && err == nil {
 			err = closeErr
 		}
+		if !t.IsInmemory {
+			vevent(11, t.Fd.Name(), -1, 0) // verif: close
+		}
 	}
 	return y.Wrap(err, "levelHandler.close")
 }
